@@ -422,20 +422,25 @@ class _Case:
 
             reset = state["watch"].windows_not_running(restart.runs)
             twice = simcases.jobs_in_flight_twice(restart.jobs)
-            if reset or twice:
+            odd = simcases.job_state_anomalies(state["watch"].samples, restart.jobs)
+            if reset or twice or odd:
                 self.count("restarts-with-row-reset-under-running-command")
                 if reset:
                     r0 = reset[0]
                     text = (f"the command of step '{r0['step']}' (job {r0['job']}) was running (logical time "
                             f"{r0['window']}) while its step row was in state {r0['state']} at commit {r0['commit']}")
-                else:
+                elif twice:
                     r0 = twice[0]
                     text = (f"step '{r0['step']}' had two jobs in flight at once (jobs {r0['jobs']}, kinds {r0['kinds']}, "
                             f"logical times {r0['windows']})")
+                else:
+                    r0 = odd[0]
+                    text = (f"the row of step '{r0['step']}' went through the states {r0['states']} while its "
+                            f"{r0['kind']} job {r0['job']} was in flight (logical time {r0['window']})")
                 self.finding("running-step-row-reset",
                              f"restart after a kill at {point}: {text}: its re-running creator redefined the step while "
                              f"a job of it was in flight; restart ended with status {restart.status} / "
-                             f"{restart.returncode!r}", point=point, resets=reset[:3], twice=twice[:3],
+                             f"{restart.returncode!r}", point=point, resets=reset[:3], twice=twice[:3], odd=odd[:3],
                              status=restart.status, error=(restart.error or "")[-1200:],
                              commands=restart.commands)
                 return
